@@ -849,3 +849,48 @@ pub fn gen_c20(o: &mut Out, tier: &str, seed: u64) {
 fn val_clone(v: &Val) -> Val {
     Val { ps: v.ps.clone(), c: v.c, ds: v.ds.clone(), r: v.r, amt: v.amt }
 }
+
+// ------------------------------------------------------------------ C19
+pub fn gen_c19(o: &mut Out, tier: &str, seed: u64) {
+    let mut r = Rng::new(seed, "c19");
+    let n = if tier == "thorough" { 4096 } else { 64 };
+    let nr = if tier == "thorough" { 256 } else { 16 };
+    let d = |o: &mut Out, fam: &str, body: String| o.op_exp(fam, "distinct", &body);
+    d(o, "keygen", format!("fresh keygen {}", n));
+    d(o, "aekeygen", format!("fresh aekeygen {}", n));
+    d(o, "opening", format!("fresh opening {}", n));
+    for a in [0u64, 1, u64::MAX] { d(o, "pedersen", format!("fresh pedersen {} {}", a, n)); }
+    let k = kp(&mut r);
+    for a in [0u64, 77, u64::MAX] { d(o, "enc", format!("fresh enc {} {} {}", hp(&k.p), a, n)); }
+    let (k2, k3) = (kp(&mut r), kp(&mut r));
+    d(o, "genc", format!("fresh genc 5 {} {} {}", hp(&k.p), hp(&k2.p), n));
+    d(o, "genc", format!("fresh genc 5 {} {} {} {}", hp(&k.p), hp(&k2.p), hp(&k3.p), n));
+    d(o, "ae", format!("fresh ae {} 55 {}", hex(&r.bytes(16)), n));
+    // the nine sigma provers on one fixed witness each (cap: below the cap and at the cap)
+    let st = zero_st(&mut r, &Scalar::ZERO);
+    d(o, "zero", format!("fresh zero {} {}", st.wit(), n));
+    d(o, "pubkey", format!("fresh pubkey {} {} {}", hs(&k.s), hp(&k.p), n));
+    let a = amount(&mut r);
+    d(o, "ctct", format!("fresh ctct {} {}", ctct_st(&mut r, a, a).wit(), n));
+    d(o, "ctcmt", format!("fresh ctcmt {} {}", ctcmt_st(&mut r, a, a).wit(), n));
+    for nh in [2usize, 3] {
+        d(o, "val", format!("fresh val{} {} {}", nh, val_st(&mut r, nh, a, None).wit(), n));
+        d(o, "bval", format!("fresh bval{} {} {}", nh, bval_st(&mut r, nh, a, 3, None).wit(), n));
+        let mut ps: Vec<RistrettoPoint> = (0..nh).map(|_| kp(&mut r).p).collect();
+        ps[nh - 1] = RistrettoPoint::identity();
+        d(o, "val.id-auditor", format!("fresh val{} {} {}", nh, val_st(&mut r, nh, a, Some(ps)).wit(), n));
+    }
+    d(o, "cap.below", format!("fresh cap {} {}", cap_below(&mut r, 2, 5, 9).wit(), n));
+    d(o, "cap.at-cap", format!("fresh cap {} {}", cap_at(&mut r, 1_000_000, 400, 3, 7).wit(), n));
+    d(o, "cap.at-cap", format!("fresh cap {} {}", cap_below(&mut r, 5, 5, 9).wit(), n));
+    // range provers
+    for (w, bls) in [(64usize, vec![32usize, 32]), (128, vec![64, 64])] {
+        let amounts: Vec<u64> = bls.iter().map(|_| r.u64() & 0xffff_ffff).collect();
+        let opens: Vec<Scalar> = bls.iter().map(|_| rand_scalar(&mut r)).collect();
+        let comms: Vec<String> = amounts.iter().zip(opens.iter()).map(|(a, op)| hp(&commit(&Scalar::from(*a), op))).collect();
+        d(o, "range", format!("fresh range{} {} {} {} {} {}", w, comms.join(","),
+            amounts.iter().map(|x| x.to_string()).collect::<Vec<_>>().join(","),
+            bls.iter().map(|x| x.to_string()).collect::<Vec<_>>().join(","),
+            opens.iter().map(hs).collect::<Vec<_>>().join(","), nr));
+    }
+}
